@@ -1453,6 +1453,13 @@ def check_C20(ctx):
         tasks.append(("run_stats", (seq, True)))
     tasks += [("run_events", (f,)) for f in funcs.event_inputs(rng, 300 if q else 4000)]
     obs = run_obs(tasks)
+    # per-process statistics when the processes are seen in different subsets of the node's samples
+    ptasks = [("run_pstats", x) for x in funcs.pstats_inputs(3 if q else 5, 3)]
+    plists = run_obs(ptasks)
+    for t, l in zip(ptasks, plists):
+        for o in l:
+            obs.append(o)
+            tasks.append(t)
     judge_obs(ctx, "Reports", "Reports_obs.cfg", obs,
               {"TrueMinimum", "TrueMaximum", "TrueMean", "SampleCount", "EveryNameConsolidated", "EventsLosslessOrdered",
                "ConsolidationIdempotent"}, "resource statistics / event consolidation", tasks=tasks)
@@ -1557,7 +1564,7 @@ def pipeline_observations(traces):
         faulty = False
         for e in evs:
             if e["e"] in ("pipeline", "create", "autoconfig"):
-                keep.append(e)
+                keep.append({k: v for k, v in e.items() if k != "jobs"})
             elif e["e"] == "summary":
                 if e["k"] not in miss:
                     miss[e["k"]] = e["nmissing"]
